@@ -73,7 +73,7 @@ class C02(DiffProperty):
             a = it[j].split("#")[0] if j < len(it) else "<none>"
             b = st[j] if j < len(st) else "L:"
             sent = [x for x in b[2:].split(",") if x != ""] if b.startswith("L:") else []
-            if io and case.split()[0] == "14":
+            if io and case.split()[0] in ("14", "24"):
                 sent = ["0420" + x for x in sent]      # the command decoder prepends its message header
             if a.startswith("F") or "|" not in a:
                 r["spec"] = (j, a, "no fault; " + b)
@@ -81,7 +81,7 @@ class C02(DiffProperty):
             msgs, status = a.rsplit("|", 1)
             if msgs != "-":
                 got += msgs.split(",")
-            if status != "ok":
+            if status.split("~")[0] != "ok":
                 r["spec"] = (j, a, "operation succeeds (the reader is given the space it asks for)")
                 break
             if got != sent[:len(got)]:
@@ -101,9 +101,11 @@ class C02(DiffProperty):
         ided = ["c%d %s" % (i, c) for i, c in enumerate(cases)]
         isio = lambda l: int(l.split(None, 2)[1]) >= 10
         I, errs = {}, []
-        for exe, sub, tag in ((hq, [l for l in ided if not isio(l)], "impl"), (hi, [l for l in ided if isio(l)], "implio")):
+        # the stream glue cases get a short per-case time limit: a livelock in the library must not cost 10 s per case
+        for exe, sub, tag, args in ((hq, [l for l in ided if not isio(l)], "impl", self.harness_args),
+                                    (hi, [l for l in ided if isio(l)], "implio", ["3"])):
             if sub:
-                o, e = vcheck.run_cases(exe, sub, workdir, tag + tagsuffix, env=self.harness_env, args=self.harness_args)
+                o, e = vcheck.run_cases(exe, sub, workdir, tag + tagsuffix, env=self.harness_env, args=args)
                 I.update(o.get("I", {}))
                 errs += e
         M, e2 = vcheck.run_cases(mx, ided, workdir, "model" + tagsuffix)
@@ -116,7 +118,7 @@ class C02(DiffProperty):
     def split(self, case):
         t = case.split()
         hdr, rest = t[:5], t[5:]
-        ar = {"send": 1, "part": 1, "fin": 0, "wire": 1, "recv": 0, "drain": 0}
+        ar = {"send": 1, "part": 1, "fin": 0, "wire": 1, "recv": 0, "drain": 0, "peek": 1, "peekn": 1}
         ops = []
         i = 0
         while i < len(rest):
@@ -125,8 +127,24 @@ class C02(DiffProperty):
             i += n + 1
         return hdr, ops
 
+    def shrink(self, case, kind, workdir, budget=12):
+        # stream glue cases run against the kernel with a per-case time limit: keep their shrinking short
+        if int(case.split()[0]) >= 10:
+            budget = 3
+        return super().shrink(case, kind, workdir, budget)
+
     def shrink_candidates(self, case):
         hdr, ops = self.split(case)
+        if int(hdr[0]) >= 10:
+            # whole operations only, at most 24 candidates per round
+            n = 0
+            for k in range(len(ops)):
+                if not (k == len(ops) - 1 and ops[k][0] == "drain"):
+                    n += 1
+                    if n > 24:
+                        return
+                    yield self.join(hdr, ops[:k] + ops[k + 1:])
+            return
         for k in range(len(ops)):
             if not (k == len(ops) - 1 and ops[k][0] == "drain"):
                 yield self.join(hdr, ops[:k] + ops[k + 1:])
@@ -209,10 +227,12 @@ class C02(DiffProperty):
                     ops += ["fin"]
                 for _ in range(rng.choice([0, 0, 1, 2, 4])):
                     r = rng.random()
-                    if r < 0.5:
+                    if r < 0.45:
                         ops += ["wire", str(rng.choice([1, 1, 2, 3, 7, 1000]))]
-                    else:
+                    elif r < 0.9:
                         ops += ["recv"]
+                    else:
+                        ops += [rng.choice(["peek", "peek", "peekn"]), str(rng.choice([0, 1, 4, 100]))]
             ops += ["drain"]
             cases.append(" ".join([str(v), str(wcap), str(woff), str(rcap), str(roff)] + ops))
         # long messages: more than 256 bytes decoded when the ZPE decoder runs out of scratch space
@@ -263,6 +283,52 @@ class C02(DiffProperty):
                     ops += [rng.choice(["wire 0", "recv"])]
             ops += ["drain"]
             cases.append(" ".join([str(v), str(sndbuf), "0", "0", "0"] + " ".join(ops).split()))
+        # ZPE frames that expand on decoding by more than the free input buffer space, directly behind another frame
+        # (decoded by the dispatcher's look-ahead), then a quiet line
+        nz = 160 if tier == "quick" else 3000
+        for i in range(nz):
+            v = 12 + i % 2
+            ops = []
+            for _ in range(rng.choice([1, 2, 3])):
+                a = [rng.randrange(1, 256) for _ in range(rng.choice([1, 3, 5, 8, 9, 10, 11, 20]))]
+                k = rng.choice([18, 20, 21, 24, 25, 26, 27, 28, 30, 40, 60])
+                b = []
+                for _ in range(k):
+                    b += [rng.randrange(1, 256)] * rng.choice([0, 1, 1, 1, 2]) + [0, 0]
+                ops += ["send", hx(a), "send", hx(b)]
+                if rng.random() < 0.3:
+                    ops += ["send", hx([rng.randrange(1, 256) for _ in range(rng.choice([1, 2, 6]))])]
+                if rng.random() < 0.5:
+                    ops += ["drain"]
+            ops += ["drain"]
+            cases.append(" ".join([str(v), "0", "0", "0", "0"] + ops))
+        # memory streams (mpt_stream_memory): writer into a fixed user buffer, reader over the finished bytes;
+        # COBS and COBS/R only: a memory reader cannot grow, ZPE may need scratch space and the command decoder needs
+        # two bytes in front of the data for its header
+        nm = 150 if tier == "quick" else 3000
+        for i in range(nm):
+            v = [20, 21][i % 2]
+            size = rng.choice([64, 200, 1000, 5000])
+            ops = []
+            room = size // 2 - 8
+            while room > 4 and len(ops) < 24:
+                m = self.gen_msg(rng, 0, min(room - 4, rng.choice([3, 10, 60, 300])))
+                if v == 24:
+                    m = [b or 0x20 for b in m] or [0x61]
+                room -= len(m) + len(m) // 200 + 3 + (2 if v == 24 else 0)
+                if room < 0:
+                    break
+                if rng.random() < 0.7 or not m:
+                    ops += ["send", hx(m)]
+                else:
+                    cut = rng.randrange(0, len(m) + 1)
+                    if m[:cut]:
+                        ops += ["part", hx(m[:cut])]
+                    if m[cut:]:
+                        ops += ["part", hx(m[cut:])]
+                    ops += ["fin"]
+            ops += ["drain"]
+            cases.append(" ".join([str(v), str(size), "0", "0", "0"] + ops))
         return cases
 
 PROP = C02()
